@@ -48,7 +48,7 @@ type c20Case struct {
 	Steps []*c20Step
 }
 
-var c20Behaviours = []string{"ok", "issues=1", "issues=3", "exit=2", "kill", "garbage"}
+var c20Behaviours = []string{"ok", "issues=1", "issues=3", "exit=2", "kill", "garbage", "killout"}
 
 // c20Sanitize is the reference for the placeholder replacement: every "${{" up to the next "}}" is
 // replaced by '_' of the same byte length; an unclosed "${{" is left alone.
@@ -188,7 +188,7 @@ func c20Gen(r *Rand, fixedBehaviours []string, nFiles, maxSteps int, slowMs int)
 					}
 				}
 				switch {
-				case strings.HasPrefix(st.Behave, "exit="), st.Behave == "kill":
+				case strings.HasPrefix(st.Behave, "exit="), st.Behave == "kill", st.Behave == "killout":
 					st.Fails = true
 				case st.Behave == "garbage" && st.Tool == "shellcheck":
 					st.Fails = true
@@ -382,7 +382,7 @@ func c20WorkerMain(args []string) {
 
 // c20FaultPattern decodes idx into an assignment of behaviours to k <= 4 invocations.
 func c20FaultPattern(idx int) []string {
-	// k = 1..4 : 6 + 36 + 216 + 1296 = 1554 patterns
+	// k = 1..4 : 7 + 49 + 343 + 2401 = 2800 patterns
 	for k := 1; k <= 4; k++ {
 		n := 1
 		for i := 0; i < k; i++ {
@@ -401,7 +401,7 @@ func c20FaultPattern(idx int) []string {
 	return nil
 }
 
-const c20NumFaultPatterns = 6 + 36 + 216 + 1296
+const c20NumFaultPatterns = 7 + 49 + 343 + 2401
 
 var c20DiagRe = regexp.MustCompile(`^(shellcheck|pyflakes) reported issue in this script`)
 
@@ -697,7 +697,7 @@ func c20FailClass(cs *c20Case) string {
 
 func runC20(r *Run) {
 	r.Level = "fault_enumeration"
-	r.Rule = "generated projects of 1-8 workflows whose run: steps get their shell from the step, the job default, the workflow default or the runner (windows => pwsh); each script carries a unique id, placeholders at start/middle/end/adjacent/multi-line/unclosed positions and a behaviour marker for the fake tool (ok, k issues, exit!=0 without output, killed, garbage, slow). Fault enumeration: every assignment of the 6 behaviours to k<=4 tool invocations (1554 patterns; all in thorough, a seeded sample in quick). Oracles: tool log (exact stdin per eligible script, exactly once), diagnostics/fatal error vs. the planned behaviour, hook trace (semaphore and live-process bounds, nothing after return, every run has ended), also under -race and with NumCPU=2 (taskset). Non-trivial = distinct case with >= 1 tool invocation whose outcome (issues / fatal / ok) matched the model."
+	r.Rule = "generated projects of 1-8 workflows whose run: steps get their shell from the step, the job default, the workflow default or the runner (windows => pwsh); each script carries a unique id, placeholders at start/middle/end/adjacent/multi-line/unclosed positions and a behaviour marker for the fake tool (ok, k issues, exit!=0 without output, killed, garbage, slow). Fault enumeration: every assignment of the 7 behaviours (ok, 1 issue, 3 issues, exit!=0 without output, killed, garbage, killed after partial output) to k<=4 tool invocations (2800 patterns; all in thorough, a seeded sample in quick). Oracles: tool log (exact stdin per eligible script, exactly once), diagnostics/fatal error vs. the planned behaviour, hook trace (semaphore and live-process bounds, nothing after return, every run has ended), also under -race and with NumCPU=2 (taskset). Non-trivial = distinct case with >= 1 tool invocation whose outcome (issues / fatal / ok) matched the model."
 	r.Assume("the fake tool's log undercounts process lifetimes (start logged after exec, end before exit), so the concurrency bound cannot false-alarm")
 	r.Assume("pyflakes output that contains no '<stdin>:' line is ignored by design; only shellcheck must fail on garbage")
 	if r.ReplayOf != nil && r.ReplayOf.Family == "strace-cli" {
@@ -722,7 +722,7 @@ func runC20(r *Run) {
 			tasks = append(tasks, wkTask{Family: fam, From: from, To: to, Race: race, Prefix: prefix})
 		}
 	}
-	add("faults", r.Q(160, c20NumFaultPatterns), 20, false, nil)
+	add("faults", r.Q(200, c20NumFaultPatterns), 20, false, nil)
 	add("mixed", r.Q(200, 6000), 20, false, nil)
 	add("load", r.Q(30, 600), 5, false, nil)
 	add("load-cpu2", r.Q(30, 600), 5, false, []string{"taskset", "-c", "0,1"})
